@@ -31,14 +31,14 @@ type c03Segment struct {
 
 func c03PayloadLengths() []int {
 	if verifTier() > 0 {
-		return []int{1, 2, 3, 4, 5, 6, 7, 8, 9, 10, 11, 12}
+		return []int{1, 2, 3, 4, 5, 8, 12}
 	}
 	return []int{1, 2, 3, 5}
 }
 
 func c03JunkLengths() []int {
 	if verifTier() > 0 {
-		return []int{1, 2, 3, 4, 5, 6, 7, 8}
+		return []int{1, 2, 3, 8}
 	}
 	return []int{1, 2, 3}
 }
